@@ -22,7 +22,7 @@ func init() {
 			"R3: the name ZipFolder/ZipWriter gives an archive entry derives from the walked file path only through injective operations (slicing off the source prefix, filepath.Rel, Join, ToSlash, TrimPrefix); cut-set trims, case folding, Replace and Base are rejected - a necessary condition of the lossless round trip. " +
 			"R4: files are created truncating (os.Create, or os.OpenFile with O_TRUNC/O_EXCL). " +
 			"R2: the containment test is filepath.IsLocal, or a repository predicate built from filepath.Rel plus the '..' test, or strings.HasPrefix against a prefix that ends with a path separator; a bare string-prefix test (which accepts sibling directories such as out-old for out) is rejected. " +
-			"R5: in the function that writes archive entries (closure, method used as walk function; the selection inputs are its captured variables, receiver fields or parameters of type func(string) bool / bool that it only reads) a file reaches the archive write only on paths on which BOTH selection inputs decided so: the filter is nil or was called on the walked path and returned true, and the recursive flag is true or the comparison of the file's directory with the source directory decided 'same directory' (paths enumerated with phi operands resolved per path, so an overwritten flag variable counts as not decided; a repository predicate that is handed the walked path and the inputs counts, when its result is known on the path, for what every one of its own paths returning that result has decided). R6 (for captured variables, parameters - every call site - and receiver fields - every store): a captured directory string that is cut off the walked path by its length, or compared with the walked path's directory, derives from a path-cleaning call (filepath.Walk hands out cleaned paths).",
+			"R5: in the function that writes archive entries (closure, method used as walk function; the selection inputs are its captured variables, receiver fields or parameters of type func(string) bool / bool that it only reads) a file reaches the archive write only on paths on which BOTH selection inputs decided so: the filter is nil or was called on the walked path and returned true, and the recursive flag is true or the comparison of the file's directory with the source directory decided 'same directory' (paths enumerated with phi operands resolved per path, so an overwritten flag variable counts as not decided; a repository predicate that is handed the walked path and the inputs counts, when its result is known on the path, for what every one of its own paths returning that result has decided). R6 (for captured variables, parameters - every call site - and receiver fields - every store): a captured directory string that is cut off the walked path by its length, or compared with the walked path's directory, derives from a path-cleaning call (filepath.Walk hands out cleaned paths). R7: nothing reached from UnzipToFolder creates a link or device (os.Symlink, os.Link, ...). R8: directories are created by os.MkdirAll only (ZipFolder stores file entries only, an intermediate folder exists in the archive as a name prefix).",
 		NotDecided: "the lossless round trip ZipFolder -> UnzipToFolder as such (equal relative paths and contents for every tree) is a value statement over file trees; injectivity of the name mapping (R3) and the selection clause (R5: both selection inputs decide on every path) are the structural parts decided; symbolic links already present inside the destination.",
 		Trusted:    []string{"archive/zip entry names are attacker controlled", "filepath.Rel / filepath.IsLocal semantics"},
 	})
